@@ -53,6 +53,10 @@ def _same_value(kind, got, want):
 
 def load_plain(s: str) -> str:
     """Resolve and construct the plain scalar text `s`; compare with the reference."""
+    if s[-1:] == '\n':
+        # no plain scalar ends in a line feed (the scanner strips trailing breaks); '$' in the resolver patterns would
+        # match before it (model M13), which no document can observe
+        return 'ok'
     kind = spec.classify(s)
     want_tag = T + kind
     r = yaml.resolver.Resolver()
@@ -259,6 +263,19 @@ def float_repr(form: int, d: str, sign: int) -> str:
     if not _same_value('float', back, float(text)):
         return 'DUMP-FLOAT text written for repr %r denotes another value' % (text,)
     return 'ok'
+
+
+def dollar_model(s: str) -> str:
+    """model M13 against a hand-written reference: '$' without re.MULTILINE matches at the end and just before a final line feed"""
+    got = bool(re.compile(r'^[0-9]+$').match(s))
+    body = s[:-1] if s[-1:] == '\n' else s
+    want = len(body) >= 1 and all('0' <= c <= '9' for c in body)
+    reach()
+    if got != want:
+        return 'MODEL-DOLLAR the regex engine and the reference disagree'
+    got2 = bool(re.compile(r'^[0-9]+\Z').match(s))
+    want2 = len(s) >= 1 and all('0' <= c <= '9' for c in s)
+    return 'ok' if got2 == want2 else 'MODEL-DOLLAR (\\Z)'
 
 
 def dump_text_plain(kind_i: int, text: str) -> str:
@@ -544,6 +561,8 @@ def jobs(tier):
                   bounds='every int 0 <= n < %d: str(n) is in the int language and denotes n' % NB))
     js.append(Job('dump-int/neg', dump_int, [lambda n: -1000 < n < 0], budget=120 if q else 1500, exhaust=False,
                   bounds='ints -1000 < n < 0 (CrossHair enumerates negative values through str(): bug-hunting only)'))
+    js.append(Job('model-dollar', dollar_model, [lambda s: len(s) <= 3], budget=100,
+                  bounds="the engine's regex model (M13: '$' before a final line feed) against a hand-written reference on every str len<=3"))
     js.append(Job('dump-consts', dump_consts, [lambda k: 0 <= k < 16], budget=100, bounds='None, bools, dates, datetimes, special and sample floats'))
     DL = 2 if q else 3
     for f in range(6):
